@@ -4,7 +4,7 @@ import os
 import random
 import tempfile
 from engine.ob import REPO_SRC  # noqa: E402
-from engine.ob import Obligation, post, reset_tally_caches
+from engine.ob import Obligation, post, reset_tally_caches, pick, flag
 
 LEVEL = 'other'
 EXPLANATION = ('Bounded symbolic execution (CrossHair + z3) of operation sequences {load A.rules | load B.rules | load C.csv | load '
@@ -200,10 +200,11 @@ def sequence(ops, final):
         post: _
         """
         import copy
-        amount = REGION_REPR[int(ri)]
-        desc = DESCS[int(di)]
-        memo = MEMOS[int(mi)]
-        memo1 = None if m1none else 'P'            # t1 = t except for its memo (P, or no memo column)
+        di, ri, mi = pick(di, 5), pick(ri, 3), pick(mi, 4)
+        amount = REGION_REPR[ri]
+        desc = DESCS[di]
+        memo = MEMOS[mi]
+        memo1 = None if flag(m1none) else 'P'            # t1 = t except for its memo (P, or no memo column)
         from tally import expr_parser, merchant_utils
         reset_tally_caches()
         cur = ([], [])
@@ -236,7 +237,7 @@ def sequence(ops, final):
         got = _digest(_classify(cur, desc, amount, memo))
         # the same operation in a genuinely fresh interpreter (reference table built before the analysis starts,
         # one new process per entry; the amount only matters through the fixtures' thresholds 5 and 10)
-        ref = table['%s-%d-%d-%d' % (fin, int(di), int(mi), int(ri))]
+        ref = table['%s-%d-%d-%d' % (fin, di, mi, ri)]
         ref = (ref[0], ref[1], ref[2], list(ref[3]))
         return post(ok and got == ref)
     return ob
